@@ -2514,7 +2514,41 @@ fn run_serde(case: &Value) -> Value {
         ],
     );
     let _ = t2;
-    json!({"status": "ok", "obs": obs, "written": {"config": t1["config.toml"], "audits": t1["audits.toml"], "imports": t1["imports.lock"]},
+    // typed fields of every entry next to what the real Serialize impl makes of it, for
+    // the comparison with the model's encoding layer
+    let strs = |l: &Vec<crate::serialization::spanned::Spanned<String>>| -> Value {
+        Value::Array(l.iter().map(|x| json!(x.to_string())).collect())
+    };
+    let mut entries = Vec::new();
+    let mut all_files: Vec<&AuditsFile> = vec![&s0.audits];
+    all_files.extend(s0.imports.audits.values());
+    for f in all_files {
+        for a in f.audits.values().flatten() {
+            let kind = match &a.kind {
+                AuditKind::Full { version } => json!({"full": version.to_string()}),
+                AuditKind::Delta { from, to } => json!({"delta": [from.to_string(), to.to_string()]}),
+                AuditKind::Violation { violation } => json!({"violation": violation.to_string()}),
+            };
+            entries.push(json!({"type": "audit", "typed": {"who": strs(&a.who), "criteria": strs(&a.criteria), "kind": kind,
+                "importable": a.importable, "notes": a.notes, "agg": strs(&a.aggregated_from)},
+                "json": serde_json::to_value(a).unwrap_or(Value::Null)}));
+        }
+        for w in f.wildcard_audits.values().flatten() {
+            entries.push(json!({"type": "wildcard", "typed": {"who": strs(&w.who), "criteria": strs(&w.criteria), "user": w.user_id,
+                "start": w.start.to_string(), "end": w.end.to_string(), "renew": w.renew, "notes": w.notes, "agg": strs(&w.aggregated_from)},
+                "json": serde_json::to_value(w).unwrap_or(Value::Null)}));
+        }
+        for c in f.criteria.values() {
+            entries.push(json!({"type": "criteria", "typed": {"description": c.description, "url": c.description_url,
+                "implies": strs(&c.implies), "agg": strs(&c.aggregated_from)},
+                "json": serde_json::to_value(c).unwrap_or(Value::Null)}));
+        }
+    }
+    for e in s0.config.exemptions.values().flatten() {
+        entries.push(json!({"type": "exemption", "typed": {"version": e.version.to_string(), "criteria": strs(&e.criteria),
+            "suggest": e.suggest, "notes": e.notes}, "json": serde_json::to_value(e).unwrap_or(Value::Null)}));
+    }
+    json!({"status": "ok", "obs": obs, "entries": entries, "written": {"config": t1["config.toml"], "audits": t1["audits.toml"], "imports": t1["imports.lock"]},
            "values": store_json(&s0), "values_reread": r1b.as_ref().ok().map(store_json)})
 }
 
